@@ -620,6 +620,21 @@ def string_cases():
     return out
 
 
+def string_same_cases():
+    """every spelling of a character compared (===, and inside a longer string) with every other spelling of the same character"""
+    by_ch = {}
+    for cid, pl in string_cases():
+        lit = cid[len("__out("):-1]
+        by_ch.setdefault(pl["ch"], []).append((lit, pl["form"]))
+    out = []
+    for ch, forms in by_ch.items():
+        for i, (a, fa) in enumerate(forms):
+            for b, fb in forms[i + 1:]:
+                src = "__out(%s === %s, (%s + 'k').indexOf('>k'), [%s].indexOf(%s), {%s: 1}[%s]);" % (a, b, a, a, b, a, b)
+                out.append(("same:" + a + "|" + b, {"src": src, "form": fa + " vs " + fb, "ch": ch, "nt": True}))
+    return out
+
+
 ESC_FORMS = [("a", "raw"), ("\\x41", "\\xHH"), ("\\u0042", "\\uHHHH"), ("\\u{43}", "\\u{H}"), ("\\n", "single-character escape"),
              ("\\\\", "single-character escape"), ("\\0", "\\0"), ("\\'", "escaped quote"), ('\\"', "escaped quote"),
              ("\\\n", "line continuation"), ("\\q", "identity escape"), ("\u4e2d", "raw"), ("\\u{4E2D}", "\\u{H}")]
@@ -914,6 +929,8 @@ def core_spaces():
     sp.append(_lit_space("c13_lit_string", string_cases, "40 characters x {raw, \\xHH, \\uHHHH, \\u{H}, single-char escape, line "
                          "continuation} x both quote styles; non-trivial = escaped or non-printable-ASCII", "40 x ~9 x 2"))
     sp.append(_lit_space("c13_lit_strpair", string_pair_cases, "all ordered pairs of 13 escape forms adjacent in one literal, both quotes", "13^2 x 2"))
+    sp.append(_lit_space("c13_lit_strsame", string_same_cases, "every two spellings of one of the 43 characters compared with ===, as "
+                         "array elements (indexOf) and as property keys; expected = V8", "pairs of spellings x 43"))
     sp.append(Space("c13_primary_ctx", RUN, primary_cases, oracle="table",
                     rule="%d compound primaries x %d continuations (member, call, operators, assignment, comma, adjacency) x %d "
                          "delimited positions (array element, argument, property value, parenthesis runs, ...); expected = V8 "
